@@ -1,3 +1,4 @@
+import GroupbyVerif.Generated.Constants
 import GroupbyVerif.Props.C05
 import GroupbyVerif.Props.C02
 import GroupbyVerif.Props.C10
@@ -358,5 +359,11 @@ example :
     let rows : List (Int × FVal) := [(0, .q 1), (-1, .q 50), (0, .q 3)]
     (srcEma .f (1 / 2) 1 rows 2, srcEma .f (1 / 2) 1 (dropNullP rows) 1, rankNonNullP rows 2) = (.q (7 / 3), .q (7 / 3), 1) := by
   unfold srcEma; decide +kernel
+
+/-- the wrapper `_apply_cumulative` around the translated loop (facts re-extracted from its AST on every run): the target
+has one cell per row and, iff the kernel reports a null key, the rows with a negative code are overwritten with the
+null marker of the result dtype (`0` for counts) - the constant `source_cum_null_row_marker` speaks of -/
+theorem source_cum_wrapper_shape :
+    Generated.Constants.cumTargetOneCellPerRow = true ∧ Generated.Constants.cumNullKeyRowsGetNullMarker = true := by decide
 
 end GV.C06
